@@ -65,7 +65,7 @@ def check(repo, tier):
             phi = [BasisFn(k) for k in range(p)]
             sc.inputs = (x, y, m)
             return sc.call(entry, x, y, phi, threshold=thr)
-        for ch, sc, res, exc in l2.explore(repo, body, typed=False):
+        for ch, sc, res, exc in l2rules.explore_data(run, 'C16', 'D1', repo, body, scen, {'data_driven.transform', 'data_driven.regression'}, typed=False):
             if exc is not None:
                 run.oblige('D1', (entry, scen), False)
                 l2rules.raised_finding(run, 'C16', 'D1', repo, entry, scen, exc)
